@@ -9,10 +9,14 @@ open Uniflow.Tracer Uniflow.Node Uniflow.Flow Uniflow.FlowInv Uniflow.FlowG Unif
 open Uniflow.ATracer (getL_setOrDel getL_aset)
 
 theorem ops_head_link (rs : List Req) (i : Rid) (s t : Pid) (ops : List Op) (h : OpsOK rs i (.link s t :: ops)) :
-    ∃ cs, (⟨s, i, .cells cs⟩ : Req) ∈ rs := by
+    ∃ cs, (⟨s, i, .cells cs⟩ : Req) ∈ rs ∧
+      (s ≠ t ∨ (s = t ∧ cs = [] ∧ ∃ w q, ops = [Op.write w q] ∧ q.id = s)) := by
   obtain ⟨p, cs, hX, hsh⟩ := h
-  rcases hsh with ⟨_, w, q, e, _⟩ | ⟨lk, wr, e, _, _, _⟩
+  rcases hsh with ⟨hcs, w, q, e | e, hq⟩ | ⟨lk, wr, e, _, _, _, hp⟩
   · simp at e
+  · simp only [List.cons.injEq, Op.link.injEq] at e
+    obtain ⟨⟨rfl, rfl⟩, rfl⟩ := e
+    exact ⟨cs, hX, Or.inr ⟨rfl, hcs, w, q, rfl, hq⟩⟩
   · cases lk with
     | nil =>
       simp only [mkOps, List.map_nil, List.nil_append] at e
@@ -21,7 +25,10 @@ theorem ops_head_link (rs : List Req) (i : Rid) (s t : Pid) (ops : List Op) (h :
       | cons x xs => simp at e
     | cons t' lk' =>
       simp only [mkOps, List.map_cons, List.cons_append, List.cons.injEq, Op.link.injEq] at e
-      rw [e.1.1]; exact ⟨cs, hX⟩
+      rw [e.1.1]
+      refine ⟨cs, hX, Or.inl ?_⟩
+      intro e2
+      exact hp (by rw [e2, e.1.2]; simp)
 
 theorem ops_head_write (rs : List Req) (i : Rid) (w : Option Wid) (q : Pkt) (ops : List Op)
     (h : OpsOK rs i (.write w q :: ops)) :
@@ -30,10 +37,11 @@ theorem ops_head_write (rs : List Req) (i : Rid) (w : Option Wid) (q : Pkt) (ops
        ∃ rest, linkedIds cs = q.id :: rest ∧ remOps p (.write w q :: ops) = []) := by
   obtain ⟨p, cs, hX, hsh⟩ := h
   refine ⟨p, cs, hX, ?_⟩
-  rcases hsh with ⟨e0, w', q', e, e2⟩ | ⟨lk, wr, e, e2, _, _⟩
+  rcases hsh with ⟨e0, w', q', e | e, e2⟩ | ⟨lk, wr, e, e2, _, _⟩
   · left
     simp only [List.cons.injEq, Op.write.injEq] at e
     exact ⟨e0, by rw [e.1.2]; exact e2, e.2⟩
+  · simp at e
   · right
     cases lk with
     | cons t' lk' => simp [mkOps] at e
